@@ -42,6 +42,7 @@ class RecHW(HardwareLayerBase):
 
 
 def make_uod(cmd_log: list | None = None, outputs_safe=(("Out1", 0.0), ), outputs_plain=("Out2", ), with_acc=True, now_fn=None,
+             overlaps=(("CmdB", "CmdC"), ),
              id_in_log=False, default_dur=0):
     """UOD with: input FT01 [L/h], Vol [L] (totalizer), outputs with/without safe value, tags X, Y (plain),
     category tag Cat, commands: Run<k> style scripted commands"""
@@ -97,7 +98,8 @@ def make_uod(cmd_log: list | None = None, outputs_safe=(("Out1", 0.0), ), output
     for name in ("CmdA", "CmdB", "CmdC"):
         i, e, f = mk(name)
         b = b.with_command(name=name, exec_fn=e, init_fn=i, finalize_fn=f)
-    b = b.with_command_overlap(["CmdB", "CmdC"])
+    for group in overlaps:          # a command may belong to several overlap groups
+        b = b.with_command_overlap(list(group))
     if with_acc:
         b = b.with_accumulated_volume("Vol")
     uod = b.build()
